@@ -101,6 +101,8 @@ pub struct Sel {
     pub hist_counters: Option<u32>,
     /// COUNTS: many men of one kind per side
     pub counts: bool,
+    /// BOXK: cornered king with at most one legal move; 1 = corners a1 / h8, 2 = all four
+    pub boxk: Option<u8>,
 }
 
 impl Sel {
@@ -125,6 +127,7 @@ impl Sel {
                 checkpin: Some(3),
                 castle2: true,
                 counts: true,
+                boxk: Some(2),
                 ..Default::default()
             }
         } else {
@@ -145,6 +148,7 @@ impl Sel {
                 checkpin: Some(1),
                 castle2: true,
                 counts: true,
+                boxk: Some(1),
                 ..Default::default()
             }
         }
@@ -372,9 +376,15 @@ pub fn run_universes(run: &mut Run, sel: &Sel, disagree_idx: usize, check: PosCh
             uni::checkpin(sh, j % uni::KZONE_PARTS, neks, &mut |p| visit(ctx, p, disagree_idx, check));
         });
     }
+    if let Some(level) = sel.boxk {
+        let shards: Vec<usize> = (0..uni::BOXK_SHARDS).filter(|sh| level >= 2 || sh / 2 == 0 || sh / 2 == 3).collect();
+        run.par_shards(&format!("BOXK (cornered king, enemy king a knight's jump away, one checker, one own man anywhere, +- a seventh-rank pawn with a capture; {} corners)", shards.len() / 2), shards.len() * uni::KZONE_PARTS, |ctx, j| {
+            uni::boxk(shards[j / uni::KZONE_PARTS], j % uni::KZONE_PARTS, &mut |p| visit(ctx, p, disagree_idx, check));
+        });
+    }
     if sel.counts {
-        run.seq("COUNTS (0..15 men of one kind per side, every pair of kinds, two king placements)", |ctx| {
-            uni::counts(&mut |p| visit(ctx, p, disagree_idx, check));
+        run.par_shards("COUNTS (0..15 men of one kind per side, every pair of kinds, two king placements)", uni::COUNTS_SHARDS, |ctx, sh| {
+            uni::counts(sh, &mut |p| visit(ctx, p, disagree_idx, check));
         });
     }
     if sel.castle2 {
@@ -383,6 +393,9 @@ pub fn run_universes(run: &mut Run, sel: &Sel, disagree_idx: usize, check: PosCh
         });
         run.par_shards("PAWNROW (king and rooks at home, every subset of enemy pawns on the rank in front)", 2, |ctx, sh| {
             uni::pawnrow(sh as u8, &mut |p| visit(ctx, p, disagree_idx, check));
+        });
+        run.par_shards("CASTLE3 (both sides with king and rooks at home, every rights set, one further man of any kind and colour anywhere)", uni::CASTLE3_SHARDS, |ctx, sh| {
+            uni::castle3(sh, &mut |p| visit(ctx, p, disagree_idx, check));
         });
     }
     if let Some(depth) = sel.hist_counters {
